@@ -1049,3 +1049,26 @@ def translate_l(repo=None):
         out.append('].')
         out.append('')
     return '\n'.join(out) + '\n'
+
+
+# ====================================================================== aliased proximal call sites
+def alias_sites(repo=None):
+    """(solver, operator symbol, buffer) for every regenerated statement  sym(buf, out=buf)  /
+    sym(buf.lincomb(...), out=buf)  whose symbol is a proximal: the call sites where a proximal operator is
+    evaluated with `out` aliased to its input."""
+    sites = []
+    text = translate(repo)
+    for name, body in re.findall(r'Definition (\w+?)_(?:body|inner\d+) : list stmt := \[(.*?)\n\]\.', text, re.S):
+        for m in re.finditer(r'\(Write "([^"]+)" \(VApp "([^"]*proximal[^"]*)" \(VName "([^"]+)"\)\)\)', body):
+            if m.group(1) == m.group(3):
+                sites.append((name, m.group(2), m.group(1)))
+    textl = translate_l(repo)
+    for name, body in re.findall(r'Definition (\w+?)_lbody : list litem := \[(.*?)\n\]\.', textl, re.S):
+        for m in re.finditer(r'\(LWrite (\(R\w+ [^()]*\)) \(LApp "([^"]*proximal[^"]*)" \(LName (\(R\w+ [^()]*\))\)\)\)', body):
+            if m.group(1) == m.group(3):
+                sites.append((name, m.group(2), m.group(1)))
+    out = []
+    for s in sites:
+        if s not in out:
+            out.append(s)
+    return out
